@@ -1295,7 +1295,7 @@ def rx_5c(ctx, rep):
     for n in walk_own(f.node):
         if isinstance(n, ast.Return) and n.value is not None:
             v = n.value
-            if isinstance(v, ast.Call) and isinstance(v.func, ast.Name) and len(v.args) == 1 and isinstance(v.args[0], ast.Name):
+            if isinstance(v, ast.Call) and isinstance(v.func, ast.Name) and len(v.args) == 1 and not v.keywords:
                 target = ctx.prog.resolve_global(f.mod, v.func.id)
                 from ..model import Func as _F
                 if isinstance(target, _F):
